@@ -50,7 +50,7 @@ BIT_OPS = ["|", "^", "&", "<<", ">>"]
 CMP_OPS = ["<", "<=", ">", ">=", "==", "!="]
 # operators a history may register again (never the ones the `bi` scripts delegate to: `*`, `<`, `&&`)
 REREG_INFIX = ["+", "-", "==", "in", "<<", "/"]
-NEW_INFIX = ["cat", "otherwise", "<=>", "**", "=~", "~", "pw", "@@", "beside"]
+NEW_INFIX = ["cat", "otherwise", "<=>", "**", "=~", "~", "pw", "@@", "beside", "!!", "pct"]   # the last two are also postfix names
 NEW_PREFIX = ["neg", "~~", "twicep"]
 NEW_POSTFIX = ["!!", "pct", "§"]
 PRECS = [2 ** 30, 2 ** 31 - 1, -2 ** 31, 1, 2, 19, 20, 21, 39, 40, 41, 99, 100, 101, 109, 110, 111, 119, 120, 121, 199, 200, 201, 1000, 1000000000, 0, -5]
